@@ -8,17 +8,34 @@ from harness.common import Report, eval_bad_indices, proof_gate, report_failure
 IMPORTS = ["Model.Validity Corr.Common Corr.C07"]
 
 
+GRAD = ('<linearGradient id="g" gradientUnits="userSpaceOnUse" x1="10" y1="10" x2="90" y2="90">'
+        '<stop offset="0" stop-color="red"/><stop offset="1" stop-color="blue"/></linearGradient>')
+# directed source sets that run first: (name, formats, sources)
+CORPUS = [
+    # two glyphs that share no outline (separate OT-SVG documents) but use the same gradient: every document must
+    # define what it references
+    ("shared-gradient", ["picosvg", "picosvgz"], [
+        f'<svg xmlns="http://www.w3.org/2000/svg" viewBox="0 0 100 100"><defs>{GRAD}</defs><path d="M10,10 L90,10 L90,90 L10,90 Z" fill="url(#g)"/></svg>',
+        f'<svg xmlns="http://www.w3.org/2000/svg" viewBox="0 0 100 100"><defs>{GRAD}</defs><path d="M50,10 L90,90 L10,90 Z" fill="url(#g)"/></svg>',
+        f'<svg xmlns="http://www.w3.org/2000/svg" viewBox="0 0 100 100"><defs>{GRAD}</defs><path d="M20,20 L80,20 L80,80 L20,80 Z" fill="url(#g)" opacity="0.5"/><path d="M10,50 L50,90 L10,90 Z" fill="red"/></svg>',
+    ]),
+]
+
+
 def run_e2e(report, n_fonts, rng):
     lits, metas = [], []
-    for i in range(n_fonts):
-        fmt = ALL_FORMATS[i % len(ALL_FORMATS)]
+    plan = [(fmt, name, texts) for name, fmts, texts in CORPUS for fmt in fmts] + [(ALL_FORMATS[i % len(ALL_FORMATS)], None, None) for i in range(n_fonts)]
+    for i, (fmt, corpus_name, corpus_texts) in enumerate(plan):
         bitmap = fmt in ("cbdt", "sbix")
         over = e2e.gen_config(rng, fmt)
         otf = fmt.startswith("cff")
         over["output_file"] = "Font.otf" if otf else "Font.ttf"
         if bitmap:
             over["bitmap_resolution"] = 32
-        if rng.random() < 0.5:
+        if corpus_texts is not None:
+            over = dict(color_format=fmt, output_file="Font.ttf")
+            srcs = [(build.filename_for((0x1F600 + k,)), t, (0x1F600 + k,)) for k, t in enumerate(corpus_texts)]
+        elif rng.random() < 0.5:
             docs, srcs = e2e.gen_sources(rng, n=rng.randint(1, 6), var_opaque=fmt.endswith("_0"))
             if rng.random() < 0.5:  # sequences too, so GSUB is present while glyphs are reshuffled
                 seqs = gen_sequences(rng)[: len(srcs)]
@@ -38,6 +55,7 @@ def run_e2e(report, n_fonts, rng):
             report_failure(report, f"build_{i}", case)
             return
         report.hist("e2e.format", fmt)
+        report.hist("e2e.kind", "corpus " + corpus_name if corpus_name else "generated")
         probs, f1 = fontcheck.roundtrip_problems(data)
         if f1 is not None:
             probs += fontcheck.svg_doc_problems(f1)
@@ -59,6 +77,56 @@ def run_e2e(report, n_fonts, rng):
         report.sample(dict(format=metas[0]["format"], tables=metas[0]["tables"]))
 
 
+def run_maximum_color(report, n, rng):
+    """the fonts maximum_color writes are emitted fonts too: same validation"""
+    from concurrent.futures import ThreadPoolExecutor
+
+    from harness import c12
+
+    kinds = ["picosvg", "glyf_colr_1", "untouchedsvg", "glyf_colr_0"]
+    plans = []
+    for i in range(n):
+        sub = random.Random(rng.getrandbits(48))
+        kind = kinds[i % len(kinds)]
+        flags = (["--colr_version", str(sub.choice([0, 1]))] if kind.endswith("svg") and sub.random() < 0.5 else []) + (["--keep_glyph_names"] if sub.random() < 0.5 else [])
+        plans.append((i, kind, sub, flags))
+
+    def work(plan):
+        i, kind, sub, flags = plan
+        data, info = c12.nanoemoji_font(sub, kind, v0_expressible="0" in flags)
+        rc, log, out = c12.run_maximum_color(data, flags)
+        return plan, info, rc, log, out
+
+    with ThreadPoolExecutor(4) as ex:
+        results = list(ex.map(work, plans))
+    lits, metas = [], []
+    for (i, kind, sub, flags), info, rc, log, out in results:
+        case = dict(kind="e2e", tool="maximum_color", input=kind, flags=flags, **info)
+        report.hist("maximum_color.input", kind)
+        if rc != 0 or out is None:
+            case.update(problems=["maximum_color failed"], log=log[-1500:])
+            report_failure(report, f"maxcolor_{i}", case)
+            return
+        probs, f1 = fontcheck.roundtrip_problems(out)
+        if f1 is not None:
+            probs += fontcheck.svg_doc_problems(f1)
+            probs += fontcheck.post_problems(f1, "--keep_glyph_names" in flags)
+            if "COLR" in f1 and "CPAL" not in f1:
+                probs.append("COLR without CPAL: every palette index is out of range")
+            lit, tinfo = fontcheck.abstract(f1)
+            lits.append(lit)
+            metas.append(dict(case, tables=tinfo))
+        report.count(("maxcolor", kind, tuple(flags), str(info.get("sources"))), True)
+        if probs:
+            case["problems"] = probs[:6]
+            report_failure(report, f"maxcolor_{i}", case)
+            return
+    bad = eval_bad_indices(IMPORTS, "", "font_abs", lits, ["font_valid"], tag="maxcolor", shard=60)
+    for i in bad["font_valid"]:
+        report_failure(report, f"maxcolor_tables_{i}", dict(metas[i], problems=["Model.Validity.font_valid is false on the abstracted tables"]))
+        break
+
+
 def main(argv):
     common.setup_env()
     tier = common.tier_from_args(argv)
@@ -73,10 +141,12 @@ def main(argv):
     st = proof_gate(report)
     rng = random.Random(report.seed)
     run_e2e(report, 26 if tier == "quick" else 650, rng)
+    if not report.violations:
+        run_maximum_color(report, 4 if tier == "quick" else 40, rng)
     if not st["proof_ok"] and not report.violations:
         report.violation("proof", dict(kind="proof", theorem="Props/C07.v", detail=report.notes.get("proof_failure")), found_input=False)
     report.open_obligations = [
         "COLR record sorting, maxp/hmtx/cmap agreement and binary round trip are produced by ufo2ft/fontTools: checked on every generated font, not modelled",
-        "fonts written by maximum_color are validated by the same functions in the C12 check",
+        "fonts written by maximum_color: a few per run here, the bulk in the C12 check (same functions)",
     ]
     return report.finish()
